@@ -1,7 +1,9 @@
 // c17: the shared cache never hands out a dead value and respects its capacity.
 //
 //	(K) exact sequential agreement between the real cache (cache.NewCache(cache.NewLRU(n)) and
-//	    cache.NewCache(nil)) and the Coq model Conc/Cache.v on random single-threaded programs;
+//	    cache.NewCache(nil)) and the Coq model Conc/Cache.v on random single-threaded programs; of the
+//	    real node table (heads, bucket states, placement, counters) and murmur32 with Conc/CacheTable.v
+//	    (table.go);
 //	(P) the property clauses evaluated directly on the implementation: sequentially at high volume
 //	    (seq.go) and under concurrent stress with instrumented values (stress.go).
 package main
@@ -23,13 +25,15 @@ type replayFile struct {
 	Case     struct {
 		Mode   string     `json:"mode"`
 		Seq    *SeqCase   `json:"seq,omitempty"`
+		Table  *TblCase   `json:"table,omitempty"`
 		Stress *StressCfg `json:"stress,omitempty"`
 	} `json:"case"`
 }
 
 func main() {
 	a := vlib.ParseArgs()
-	res := vlib.NewResult("C17", a.Out, "sequential: random programs of Get/Release/Delete/Evict/EvictNS/EvictAll/SetCapacity/Close over 2-64 keys x 1-3 namespaces, capacity 0..50 (nil cacher 1/8), sizes around the capacity, plus programs crossing the table's growth threshold and shrinking again; non-trivial = the program had both hits and misses and constructed more than one value. stress: 2-32 goroutines over overlapping keys; non-trivial = at least one value was finalised while another goroutine's Get was in flight on the same key set (constructions > keys)")
+	outDir = a.Out
+	res := vlib.NewResult("C17", a.Out, "sequential: random programs of Get/Release/Delete/Evict/EvictNS/EvictAll/SetCapacity/Close over 2-64 keys x 1-3 namespaces, capacity 0..50 (nil cacher 1/8), sizes around the capacity, plus programs crossing the table's growth threshold and shrinking again; non-trivial = the program had both hits and misses and constructed more than one value. stress: 2-32 goroutines over overlapping keys; non-trivial = at least one value was finalised while another goroutine's Get was in flight on the same key set (constructions > keys). node table: programs of get-or-create / lookup / release-to-removal / stale delete / enumerate / forced initBucket calls on the real table (nil cacher) with colliding keys (overflow-triggered grows), enough spread keys for the count-triggered grow, and removal down through the shrinks; non-trivial = nodes were created, found and removed")
 	defer res.Write()
 	t0 := time.Now()
 
@@ -86,19 +90,21 @@ func main() {
 		bigs = append(bigs, o.kcase)
 	}
 	if len(cases) > 0 {
-		shards := 16
-		per := (len(cases) + len(bigs) + shards - 1) / shards
-		// spread the big cases over different shards
-		for i, b := range bigs {
-			at := i * per
-			if at > len(cases) {
-				at = len(cases)
-			}
-			cases = append(cases[:at], append([]string{b}, cases[at:]...)...)
+		res.WriteCases("From GL Require Import Conc.Cache Corr.C17Run.", "c17case", "mismatches", cases, 16)
+		// each big (table-resizing) program is a file of its own, after the 16 shards
+		var bigFiles [][]string
+		for _, b := range bigs {
+			bigFiles = append(bigFiles, []string{b})
 		}
-		res.WriteCases("From GL Require Import Conc.Cache Corr.C17Run.", "c17case", "mismatches", cases, shards)
+		writeExtraCases(res, "From GL Require Import Conc.Cache Corr.C17Run.", "c17case", "mismatches", bigFiles, 16)
 	}
 	res.Count("k_cases_big_resize", len(bigs))
+
+	// ---- the node table against Conc/CacheTable.v: (K) cases of their own (one big program per file) + (P)
+	if a.Extra != "search" {
+		tableK(res, root.Fork(), a.Thorough(), 16+len(bigs))
+	}
+	tableP(res, root.Fork(), a.Thorough(), a.Extra == "search")
 
 	// ---- (P) sequential volume, in parallel
 	workers := runtime.NumCPU()
@@ -148,6 +154,62 @@ func main() {
 	}
 }
 
+// tableK: the (K) cases of the node table.  Written as files of their own (WriteCases names its files
+// cases_<prop>_<i>.v from 0, so these use the indexes after the 16 shards of the sequential cases).
+func tableK(res *vlib.Result, r *vlib.RNG, thorough bool, firstFile int) {
+	var cases []string
+	add := func(tc TblCase) {
+		o := runTable(tc, true)
+		recordTable(res, &tc, o)
+		if o.kcase != "" {
+			cases = append(cases, o.kcase)
+		}
+	}
+	add(genTable(r, "ovf", 2))
+	add(genTable(r, "count", 1))
+	var small []string
+	for i := 0; i < 24 && res.NViolations() < 3; i++ {
+		tc := genTable(r, "mix", 1)
+		o := runTable(tc, true)
+		recordTable(res, &tc, o)
+		small = append(small, o.kcase)
+	}
+	small = append(small, murmurCases(r, 400))
+	if thorough {
+		add(genTable(r, "ovf", 3))
+		add(genTable(r, "count", 2))
+		add(genTable(r, "ovf", 1))
+	}
+	files := append([][]string{small}, func() (l [][]string) {
+		for _, c := range cases {
+			l = append(l, []string{c})
+		}
+		return
+	}()...)
+	writeExtraCases(res, "From GL Require Import Conc.Cache Conc.CacheTable Corr.C17Run.", "c17case", "mismatches", files, firstFile)
+	res.Count("k_cases_table", len(cases)+len(small)-1)
+	res.Count("k_cases_murmur32_values", 400+2*12*6)
+}
+
+// tableP: the table invariants on the implementation at volume (no Coq cases).
+func tableP(res *vlib.Result, r *vlib.RNG, thorough, search bool) {
+	n, nbig := 60, 2
+	if thorough {
+		n, nbig = 3000, 40
+	}
+	if search {
+		n, nbig = 400, 6
+	}
+	for i := 0; i < nbig && res.NViolations() < 5; i++ {
+		tc := genTable(r, []string{"ovf", "count"}[i%2], 1+i%2)
+		recordTable(res, &tc, runTable(tc, false))
+	}
+	for i := 0; i < n && res.NViolations() < 5; i++ {
+		tc := genTable(r, "mix", 1)
+		recordTable(res, &tc, runTable(tc, false))
+	}
+}
+
 func targetedRaces(res *vlib.Result, d time.Duration, deadlockToo bool) {
 	trials, hits := closeRaceExperiment(d)
 	res.Count("closerace_trials", trials)
@@ -161,11 +223,18 @@ func targetedRaces(res *vlib.Result, d time.Duration, deadlockToo bool) {
 		res.Violate(fmt.Sprintf("stress: Close(true) racing Handle.Release: a value was finalised twice (%d of %d trials)", h2, t2),
 			map[string]interface{}{"mode": "forcecloserace"})
 	}
+	// third race: Close against an operation whose cacher step releases a handle (was known finding
+	// cache-close-rlock-reentry: 3 deadlocks in 46-131 trials; repaired by "fix: cache: Close must not deadlock
+	// with an operation whose cacher step releases a handle"; it must not recur)
+	dd := 3 * time.Second
 	if deadlockToo {
-		// known finding of C09 (known_findings_C17.txt: cache-close-rlock-reentry): counted, not a C17 violation
-		t3, h3 := closeDeadlockExperiment(20 * time.Second)
-		res.Count("known_C09_cache_close_rlock_reentry_trials", t3)
-		res.Count("known_C09_cache_close_rlock_reentry_deadlocks", h3)
+		dd = 30 * time.Second
+	}
+	t3, h3 := closeDeadlockExperiment(dd)
+	res.Count("closedeadlock_trials", t3)
+	if h3 > 0 {
+		res.Violate(fmt.Sprintf("stress: Close concurrent with Get on a full LRU (Promote evicts, Handle.Release re-enters the cache lock): Close and the Get blocked for more than 2 s (%d of %d trials)", h3, t3),
+			map[string]interface{}{"mode": "closedeadlock"})
 	}
 }
 
@@ -240,6 +309,14 @@ func replay(a vlib.Args, res *vlib.Result) {
 		o := runSeq(*rf.Case.Seq, 1, true)
 		record(res, "seq", rf.Case.Seq, nil, o)
 		res.WriteCases("From GL Require Import Conc.Cache Corr.C17Run.", "c17case", "mismatches", []string{o.kcase}, 1)
+	case rf.Case.Table != nil:
+		for i := 0; i < 3 && res.NViolations() == 0; i++ {
+			o := runTable(*rf.Case.Table, i == 0)
+			recordTable(res, rf.Case.Table, o)
+			if i == 0 && o.kcase != "" {
+				res.WriteCases("From GL Require Import Conc.Cache Conc.CacheTable Corr.C17Run.", "c17case", "mismatches", []string{o.kcase}, 1)
+			}
+		}
 	case rf.Case.Stress != nil:
 		// a schedule cannot be replayed exactly: re-run the same configuration a number of times
 		for i := 0; i < 30 && res.NViolations() == 0; i++ {
@@ -247,7 +324,7 @@ func replay(a vlib.Args, res *vlib.Result) {
 			cfg.Seed += uint64(i)
 			recordStress(res, cfg, runStressWatched(cfg))
 		}
-	case rf.Case.Mode == "closerace" || rf.Case.Mode == "forcecloserace":
+	case rf.Case.Mode == "closerace" || rf.Case.Mode == "forcecloserace" || rf.Case.Mode == "closedeadlock":
 		targetedRaces(res, 30*time.Second, false)
 	default:
 		fmt.Fprintln(os.Stderr, "replay: file names no C17 case (a proof/correspondence tie file?)")
